@@ -1,4 +1,49 @@
-/- dsmodel_wire_theta: wire-format model driver stub (filled in when the family group is built). -/
-def main (_args : List String) : IO UInt32 := do
-  IO.eprintln "dsmodel_wire_theta: not built yet"
-  return 2
+/- dsmodel_wire_theta <gen|doc>: wire-format model driver of the Theta / Tuple / array-of-doubles group.
+   `gen`: wire constants as translated from the current headers (DSGen.WireTheta); `doc`: the documented constants. -/
+import DSModel.DriverLoop
+import DSModel.Wire.ThetaDriver
+import DSModel.Wire.TupleDriver
+import DSModel.Wire.BitPackDriver
+import DSModel.Wire.GenConsts
+open DS DS.Wire
+
+structure Cfg where
+  theta : Theta.Consts
+  tuple : Tuple.Consts
+  aod : Aod.Consts
+
+def step (cfg : Cfg) (_ : Unit) (w : List String) : Unit × String :=
+  match w with
+  | ["IMG", kind, seed, hex] =>
+    match seed.toNat?, parseHexBytes hex with
+    | some seed, some b =>
+      if kind.startsWith "theta" then ((), Theta.imgLine cfg.theta kind seed b.toList)
+      else if kind.startsWith "tuple" then ((), Tuple.imgLine cfg.tuple kind seed b.toList)
+      else if kind == "aod" then ((), Aod.imgLine cfg.aod seed b.toList)
+      else ((), "bad-kind")
+    | _, _ => ((), "bad-op")
+  | ["VRD", kind, seed, hex] =>   -- verdict only (corrupted images)
+    match seed.toNat?, parseHexBytes hex with
+    | some seed, some b =>
+      let exp := Theta.expSeedHash seed
+      let acc :=
+        if kind.startsWith "theta" then (Theta.decode cfg.theta exp b.toList).isSome
+        else if kind == "tuple_f64" || kind == "tuple_i64" then (Tuple.decode cfg.tuple Tuple.u64Codec exp b.toList).isSome
+        else if kind == "tuple_str" then (Tuple.decode cfg.tuple (Tuple.strCodec 4) exp b.toList).isSome
+        else if kind == "tuple_cst" then (Tuple.decode cfg.tuple (Tuple.strCodec 1) exp b.toList).isSome
+        else if kind == "aod" then (Aod.decode cfg.aod exp b.toList).isSome
+        else false
+      ((), if acc then "accept" else "reject")
+    | _, _ => ((), "bad-op")
+  | "ENC" :: kind :: _seed :: "T" :: rest =>
+    if kind.startsWith "theta" then ((), Theta.encLine cfg.theta kind rest) else ((), "bad-kind")
+  | "ENC" :: kind :: _seed :: "U" :: rest =>
+    if kind.startsWith "tuple" then ((), Tuple.encLine cfg.tuple kind rest) else ((), "bad-kind")
+  | "BP" :: _ => ((), BitPack.bpLine w)
+  | "BPT" :: _ => ((), BitPack.bpLine w)
+  | _ => ((), "bad-op")
+
+def main (args : List String) : IO UInt32 := do
+  let cfg : Cfg := if args.head? == some "doc" then { theta := Theta.documented, tuple := Tuple.documented, aod := Aod.documented }
+    else { theta := genThetaConsts, tuple := genTupleConsts, aod := genAodConsts }
+  DS.runDriver () (step cfg)
